@@ -184,6 +184,22 @@ harnesses! {
         assert!(r2 == Err(ParseBioError::MismatchedLength(1, 2)), "C08.from_str.long_text_must_be_error");
         reach!("end");
     }
+    fn c08_q_from_str_wrong_length_full_storage [70] {
+        // k-mers that fill their storage exactly: one character too many / too few is still MismatchedLength
+        let r = Kmer::<text::Dna, 16, u128>::from_str("ACGTACGTACGTACGTA");
+        assert!(r == Err(ParseBioError::MismatchedLength(16, 17)), "C08.from_str.long_text_must_be_error_text16_u128");
+        let r = Kmer::<Dna, 32>::from_str("ACGTACGTACGTACGTACGTACGTACGTACGTA");
+        assert!(r == Err(ParseBioError::MismatchedLength(32, 33)), "C08.from_str.long_text_must_be_error_dna32");
+        let r = Kmer::<Dna, 64, u128>::from_str("ACGTACGTACGTACGTACGTACGTACGTACGTACGTACGTACGTACGTACGTACGTACGTACGTA");
+        assert!(r == Err(ParseBioError::MismatchedLength(64, 65)), "C08.from_str.long_text_must_be_error_dna64_u128");
+        let r = Kmer::<Amino, 21, u128>::from_str("ACDEFGHIKLMNPQRSTVWYAC");
+        assert!(r == Err(ParseBioError::MismatchedLength(21, 22)), "C08.from_str.long_text_must_be_error_amino21_u128");
+        let r = Kmer::<Iupac, 16, u64>::from_str("ACGTRYSWKMBDHVN");
+        assert!(r == Err(ParseBioError::MismatchedLength(16, 15)), "C08.from_str.short_text_must_be_error_iupac16_u64");
+        let r = Kmer::<Iupac, 32, u128>::from_str("ACGTRYSWKMBDHVNACGTRYSWKMBDHVNACG");
+        assert!(r == Err(ParseBioError::MismatchedLength(32, 33)), "C08.from_str.long_text_must_be_error_iupac32_u128");
+        reach!("end");
+    }
     fn c08_q_kmer_macro [10] {
         // kmer! literal: concrete programs, symbols per the documented layout
         let k = kmer!("ACGT");
